@@ -369,7 +369,20 @@ Fixpoint compile (a : ast) : option compiled :=
                   c_scope := sc |}
       | None => None
       end
-  | _ => None                       (* alias with a uid map: not in this model *)
+  | Alias c (Some m) =>
+      (* plain alias(): compile_ast has no branch for it - the query is unchanged; the new identities denote
+         the same columns (the code merges them with the old ones when it clones the tree for export; the model
+         lets a new identity share the definition and the label of the old one) *)
+      match compile c with
+      | Some cc =>
+          let q := c_q cc in
+          Some {| c_from := c_from cc; c_cols := c_cols cc;
+                  c_q := set_part (set_select q (map (remap_uid m) (q_select q))) (map (remap_uid m) (q_part q));
+                  c_labels := map (fun on => (snd on, label (c_labels cc) (fst on))) m ++ c_labels cc;
+                  c_defs := map (fun on => (snd on, def_of (c_defs cc) (fst on))) m ++ c_defs cc;
+                  c_scope := map (remap_uid m) (c_scope cc) |}
+      | None => None
+      end
   end.
 
 
@@ -515,6 +528,18 @@ Fixpoint flat_ok (a : ast) : bool :=
          | None => false
          end
   | SubqueryMarker c => flat_ok c
+  | Alias c (Some m) =>
+      (* the renaming keeps different identities different; the new identities are new *)
+      flat_ok c
+      && match compile c with
+         | Some cc =>
+             let U := ast_uids c ++ c_scope cc ++ map fst (c_labels cc) ++ map fst (c_defs cc) in
+             forallb (fun a => forallb (fun b => implb (N.eqb (remap_uid m a) (remap_uid m b)) (N.eqb a b)) U) U
+             && nodup_u (map snd m) && nodup_u (map fst m)
+             && disjointb (map snd m) (map fst (c_defs cc)) && disjointb (map snd m) (map fst (c_labels cc))
+             && forallb (fun x => mem_u x (map fst m)) (c_scope cc)
+         | None => false
+         end
   | Join l r on JInner =>
       (* both operands: plain SELECT ... FROM ... WHERE (not summarized, ordered, limited or grouped, no
          window column), an element-wise condition, and the two operands share no column identity *)
@@ -570,7 +595,6 @@ Fixpoint flat_ok (a : ast) : bool :=
          end
   | Union l r _ =>                              (* compile = Some: every left column name exists on the right *)
       flat_ok l && flat_ok r && match compile l with Some cl => nodup_u (q_select (c_q cl)) | None => false end
-  | _ => false
   end.
 
 (* the compiled operands of the unions of a pipeline, in the order the unions are built (a right operand
